@@ -1,25 +1,81 @@
-(* Proofs about model/DdTags.v (property C04): on a ddtags text that IS a comma-separated list of well-formed ASCII tags the
-   walk of the regular expression returns exactly those tags, in order. *)
+(* Proofs about model/DdTags.v (property C04): on a ddtags text that IS a comma-separated list of well-formed tags (any
+   well-formed UTF-8 runes of the classes) the walk of the regular expression returns exactly those tags, in order. *)
 From Coq Require Import List ZArith Lia String Ascii Bool Permutation.
 From Qryn Require Import model.GoQuote model.GoJson model.DdTags.
 Import ListNotations.
 Open Scope Z_scope.
 
+(* ------------------------------------------------------------------ DecodeRuneInString looks at the rune's own bytes only *)
+Lemma decode_rune_app s t r w : decode_rune s = Some (r, w) ->
+  decode_rune (append s t) = Some (r, w) /\ (1 <= w <= String.length s)%nat.
+Proof.
+  destruct s as [|c0 s]; [discriminate|]. unfold decode_rune. cbn [append].
+  destruct (byte c0 <? 128); [intros H; inversion H; subst; split; [reflexivity|cbn [String.length]; lia]|].
+  destruct (in_rng 194 223 (byte c0)).
+  { destruct s as [|c1 s]; [discriminate|]. cbn [append]. destruct (is_cont (byte c1)); [|discriminate].
+    intros H; inversion H; subst; split; [reflexivity|cbn [String.length]; lia]. }
+  destruct (in_rng 224 239 (byte c0)).
+  { destruct s as [|c1 [|c2 s]]; try discriminate. cbn [append].
+    destruct (in_rng (if byte c0 =? 224 then 160 else 128) (if byte c0 =? 237 then 159 else 191) (byte c1) && is_cont (byte c2)); [|discriminate].
+    intros H; inversion H; subst; split; [reflexivity|cbn [String.length]; lia]. }
+  destruct (in_rng 240 244 (byte c0)); [|discriminate].
+  destruct s as [|c1 [|c2 [|c3 s]]]; try discriminate. cbn [append].
+  destruct (in_rng (if byte c0 =? 240 then 144 else 128) (if byte c0 =? 244 then 143 else 191) (byte c1) && is_cont (byte c2) && is_cont (byte c3)); [|discriminate].
+  intros H; inversion H; subst; split; [reflexivity|cbn [String.length]; lia].
+Qed.
+
+Lemma length_append a b : String.length (append a b) = (String.length a + String.length b)%nat.
+Proof. induction a as [|c a IH]; cbn [append String.length]; [reflexivity|now rewrite IH]. Qed.
+Lemma append_nil_r s : append s EmptyString = s.
+Proof. induction s as [|c s IH]; cbn [append]; [reflexivity|now rewrite IH]. Qed.
+Lemma append_assoc a b c : append (append a b) c = append a (append b c).
+Proof. induction a as [|x a IH]; cbn [append]; [reflexivity|now rewrite IH]. Qed.
+
+Lemma sdrop_app : forall w s t, (w <= String.length s)%nat -> sdrop w (append s t) = append (sdrop w s) t.
+Proof.
+  induction w as [|w IH]; intros s t H; [destruct s; reflexivity|].
+  destruct s as [|c s]; [cbn in H; lia|]. cbn [append sdrop]. apply IH. cbn [String.length] in H. lia.
+Qed.
+Lemma stake_app : forall w s t, (w <= String.length s)%nat -> stake w (append s t) = stake w s.
+Proof.
+  induction w as [|w IH]; intros s t H; [destruct s; reflexivity|].
+  destruct s as [|c s]; [cbn in H; lia|]. cbn [append stake]. f_equal. apply IH. cbn [String.length] in H. lia.
+Qed.
+Lemma stake_sdrop : forall w s, append (stake w s) (sdrop w s) = s.
+Proof.
+  induction w as [|w IH]; intros s; [destruct s; reflexivity|]. destruct s as [|c s]; [reflexivity|].
+  cbn [stake sdrop append]. now rewrite IH.
+Qed.
+Lemma sdrop_length : forall w s, (w <= String.length s)%nat -> String.length (sdrop w s) = (String.length s - w)%nat.
+Proof.
+  induction w as [|w IH]; intros s H; [destruct s; cbn; lia|]. destruct s as [|c s]; [cbn in H; lia|].
+  cbn [sdrop String.length]. rewrite IH; [lia|]. cbn [String.length] in H. lia.
+Qed.
+
 Section P.
   Variable lh : Z -> bool.
 
-  Definition a_name_byte (c : ascii) : bool := (byte c <? 128) && name_rune lh (byte c).
-  Definition a_value_byte (c : ascii) : bool := (byte c <? 128) && value_rune lh (byte c).
-  Fixpoint all_bytes (p : ascii -> bool) (s : string) : bool :=
-    match s with EmptyString => true | String c r => p c && all_bytes p r end.
-  (* name: an ASCII letter, then ASCII name bytes; value: at least one ASCII value byte *)
-  Definition wf_name (s : string) : bool :=
+  (* s consists of well-formed UTF-8 runes that all satisfy p *)
+  Fixpoint rune_run (p : Z -> bool) (fuel : nat) (s : string) : bool :=
     match s with
-    | EmptyString => false
-    | String c r => (byte c <? 128) && is_letter lh (byte c) && all_bytes a_name_byte s
+    | EmptyString => true
+    | String _ _ =>
+      match fuel with
+      | O => false
+      | S f => match decode_rune s with
+               | Some (r, w) => p r && rune_run p f (sdrop w s)
+               | None => false
+               end
+      end
+    end.
+  (* name: a letter, then name runes; value: at least one value rune *)
+  Definition wf_name (s : string) : bool :=
+    match decode_rune s with
+    | Some (r, _) => is_letter lh r && rune_run (name_rune lh) (String.length s) s
+    | None => false
     end.
   Definition wf_value (s : string) : bool :=
-    match s with EmptyString => false | _ => all_bytes a_value_byte s end.
+    match s with EmptyString => false | _ => rune_run (value_rune lh) (String.length s) s end.
   Definition wf_tag (kv : string * string) : bool := wf_name (fst kv) && wf_value (snd kv).
   Definition tag_text (kv : string * string) : string := append (fst kv) (String ":" (snd kv)).
   Definition tags_text (tags : list (string * string)) : string := join_with "," (map tag_text tags).
@@ -27,78 +83,67 @@ Section P.
   Lemma rune_at_ascii c r : byte c <? 128 = true -> rune_at (String c r) = (byte c, 1%nat).
   Proof. intros H. unfold rune_at, decode_rune. now rewrite H. Qed.
 
-  Lemma length_append a b : String.length (append a b) = (String.length a + String.length b)%nat.
-  Proof. induction a as [|c a IH]; cbn [append String.length]; [reflexivity|now rewrite IH]. Qed.
-
   (* the maximal run: all of s1, when what follows is empty or an ASCII byte outside the class *)
-  Lemma span_ascii (p : Z -> bool) : forall s1 rest fuel,
-    all_bytes (fun c => (byte c <? 128) && p (byte c)) s1 = true ->
+  Lemma span_run (p : Z -> bool) : forall f s1 rest fuel,
+    rune_run p f s1 = true ->
     (rest = EmptyString \/ exists d r, rest = String d r /\ byte d <? 128 = true /\ p (byte d) = false) ->
     (String.length (append s1 rest) <= fuel)%nat ->
     span p fuel (append s1 rest) = (s1, rest).
   Proof.
-    induction s1 as [|c s1 IH]; intros rest fuel Hall Hrest Hf; cbn [append] in *.
-    - destruct Hrest as [->|[d [r [-> [Hd Hp]]]]]; [destruct fuel; reflexivity|].
-      destruct fuel as [|f]; [cbn in Hf; lia|].
-      cbn [span]. rewrite (rune_at_ascii d r Hd). now rewrite Hp.
-    - destruct fuel as [|f]; [cbn in Hf; lia|]. cbn [all_bytes] in Hall. apply andb_true_iff in Hall.
-      destruct Hall as [Hc Hall]. apply andb_true_iff in Hc. destruct Hc as [Hc Hp].
-      cbn [span]. rewrite (rune_at_ascii c _ Hc), Hp. cbn [sdrop stake].
-      rewrite (IH rest f Hall Hrest); [reflexivity|]. cbn [String.length] in Hf. lia.
+    induction f as [|f IH]; intros s1 rest fuel Hrun Hrest Hf.
+    - destruct s1 as [|c s1]; [|discriminate Hrun]. cbn [append] in *.
+      destruct Hrest as [->|[d [r [-> [Hd Hp]]]]]; [destruct fuel; reflexivity|].
+      destruct fuel as [|fu]; [cbn in Hf; lia|]. cbn [span]. rewrite (rune_at_ascii d r Hd). now rewrite Hp.
+    - destruct s1 as [|c s1].
+      + cbn [append] in *. destruct Hrest as [->|[d [r [-> [Hd Hp]]]]]; [destruct fuel; reflexivity|].
+        destruct fuel as [|fu]; [cbn in Hf; lia|]. cbn [span]. rewrite (rune_at_ascii d r Hd). now rewrite Hp.
+      + cbn [rune_run] in Hrun. destruct (decode_rune (String c s1)) as [[r w]|] eqn:Ed; [|discriminate Hrun].
+        apply andb_true_iff in Hrun. destruct Hrun as [Hp Hrun].
+        destruct (decode_rune_app _ rest _ _ Ed) as [Ed' [Hw1 Hw2]].
+        destruct fuel as [|fu]; [cbn in Hf; lia|].
+        change (append (String c s1) rest) with (String c (append s1 rest)) in *.
+        cbn [span]. unfold rune_at. rewrite Ed'. rewrite Hp.
+        change (String c (append s1 rest)) with (append (String c s1) rest).
+        rewrite (sdrop_app w (String c s1) rest Hw2), (stake_app w (String c s1) rest Hw2).
+        rewrite (IH (sdrop w (String c s1)) rest fu Hrun Hrest).
+        * now rewrite stake_sdrop.
+        * rewrite length_append, sdrop_length by exact Hw2.
+          change (String c (append s1 rest)) with (append (String c s1) rest) in Hf. rewrite length_append in Hf. lia.
   Qed.
-
-  Lemma name_not_colon : name_rune lh 58 = false.
-  Proof. reflexivity. Qed.
-  Lemma value_not_comma : value_rune lh 44 = false.
-  Proof. reflexivity. Qed.
 
   Lemma byte_colon : byte ":" = 58. Proof. reflexivity. Qed.
   Lemma byte_comma : byte "," = 44. Proof. reflexivity. Qed.
 
   (* one well-formed tag at the head of the text, followed by the end or by a comma *)
-  Lemma match_here_tag n v rest :
+  Lemma match_here_tag n v tail :
     wf_name n = true -> wf_value v = true ->
-    match_here lh (append n (String ":" (append v EmptyString))) = Some ((n, v), EmptyString) /\
-    match_here lh (append n (String ":" (append v (String "," rest)))) = Some ((n, v), rest).
+    (tail = EmptyString \/ exists r, tail = String "," r) ->
+    match_here lh (append n (String ":" (append v tail))) =
+    Some ((n, v), match tail with EmptyString => EmptyString | String _ r => r end).
   Proof.
-    intros Hn Hv.
-    assert (G : forall tail, (tail = EmptyString \/ exists r, tail = String "," r) ->
-              match_here lh (append n (String ":" (append v tail))) =
-              Some ((n, v), match tail with EmptyString => EmptyString | String _ r => r end)).
-    { intros tail Htail. unfold match_here.
-      destruct n as [|c n']; [discriminate Hn|]. cbn [wf_name] in Hn.
-      apply andb_true_iff in Hn. destruct Hn as [Hn Hall]. apply andb_true_iff in Hn. destruct Hn as [Hc Hl].
-      cbn [append]. rewrite (rune_at_ascii c _ Hc). cbn [fst]. rewrite Hl.
-      change (String c (append n' (String ":" (append v tail)))) with (append (String c n') (String ":" (append v tail))).
-      rewrite (span_ascii (name_rune lh) (String c n') (String ":" (append v tail))); cycle 1.
-      - exact Hall.
-      - right. exists ":"%char, (append v tail). split; [reflexivity|]. split; reflexivity.
-      - apply Nat.le_refl.
-      - rewrite byte_colon. cbn [Z.eqb Pos.eqb].
-        destruct v as [|d v']; [discriminate Hv|]. cbn [wf_value] in Hv.
-        rewrite (span_ascii (value_rune lh) (String d v') tail); cycle 1.
-        + exact Hv.
-        + destruct Htail as [->|[r ->]]; [now left|]. right. exists ","%char, r. split; [reflexivity|]. split; reflexivity.
-        + apply Nat.le_refl.
-        + destruct Htail as [->|[r ->]]; [reflexivity|]. rewrite byte_comma. reflexivity. }
-    split.
-    - apply (G EmptyString). now left.
-    - apply (G (String "," rest)). right. now exists rest.
+    intros Hn Hv Htail. unfold match_here. unfold wf_name in Hn.
+    destruct (decode_rune n) as [[r0 w0]|] eqn:Ed; [|discriminate Hn].
+    apply andb_true_iff in Hn. destruct Hn as [Hl Hrun].
+    destruct (decode_rune_app n (String ":" (append v tail)) _ _ Ed) as [Ed' _].
+    unfold rune_at at 1. rewrite Ed'. cbn [fst]. rewrite Hl.
+    rewrite (span_run (name_rune lh) (String.length n) n (String ":" (append v tail))); cycle 1.
+    - exact Hrun.
+    - right. exists ":"%char, (append v tail). split; [reflexivity|]. split; reflexivity.
+    - apply Nat.le_refl.
+    - rewrite byte_colon. cbn [Z.eqb Pos.eqb].
+      destruct v as [|d v']; [discriminate Hv|]. cbn [wf_value] in Hv.
+      rewrite (span_run (value_rune lh) (String.length (String d v')) (String d v') tail); cycle 1.
+      + exact Hv.
+      + destruct Htail as [->|[r ->]]; [now left|]. right. exists ","%char, r. split; [reflexivity|]. split; reflexivity.
+      + apply Nat.le_refl.
+      + destruct Htail as [->|[r ->]]; [reflexivity|]. rewrite byte_comma. reflexivity.
   Qed.
 
-  Lemma append_nil_r s : append s EmptyString = s.
-  Proof. induction s as [|c s IH]; cbn [append]; [reflexivity|now rewrite IH]. Qed.
-  Lemma append_assoc a b c : append (append a b) c = append a (append b c).
-  Proof. induction a as [|x a IH]; cbn [append]; [reflexivity|now rewrite IH]. Qed.
+  Lemma wf_name_nonempty n : wf_name n = true -> exists c r, n = String c r.
+  Proof. unfold wf_name. destruct n as [|c r]; [discriminate|eauto]. Qed.
 
   Lemma tags_text_cons kv kv2 tags : tags_text (kv :: kv2 :: tags) = append (tag_text kv) (String "," (tags_text (kv2 :: tags))).
   Proof. reflexivity. Qed.
-
-  Lemma tag_text_nonempty kv : wf_tag kv = true -> exists c r, tag_text kv = String c r.
-  Proof.
-    destruct kv as [n v]. unfold wf_tag, tag_text. cbn [fst snd]. intros H. apply andb_true_iff in H. destruct H as [Hn _].
-    destruct n as [|c n']; [discriminate Hn|]. cbn [append]. eauto.
-  Qed.
 
   Lemma dd_tags_f_tags : forall tags fuel,
     forallb wf_tag tags = true -> (String.length (tags_text tags) <= fuel)%nat ->
@@ -107,25 +152,24 @@ Section P.
     induction tags as [|kv tags IH]; intros fuel Hwf Hf.
     - destruct fuel; reflexivity.
     - cbn [forallb] in Hwf. apply andb_true_iff in Hwf. destruct Hwf as [Hkv Hwf].
-      destruct (tag_text_nonempty kv Hkv) as [c [r Ec]].
       pose proof Hkv as Hkv'. unfold wf_tag in Hkv'. apply andb_true_iff in Hkv'. destruct Hkv' as [Hn Hv].
       destruct kv as [n v]. cbn [fst snd] in Hn, Hv.
-      destruct (match_here_tag n v EmptyString Hn Hv) as [M1 _].
+      destruct (wf_name_nonempty n Hn) as [c [r En]].
       destruct tags as [|kv2 tags'].
-      + unfold tags_text in *. cbn [map join_with] in *. unfold tag_text in *. cbn [fst snd] in *.
+      + pose proof (match_here_tag n v EmptyString Hn Hv (or_introl eq_refl)) as M1.
+        unfold tags_text in *. cbn [map join_with] in *. unfold tag_text in *. cbn [fst snd] in *.
         rewrite append_nil_r in M1.
-        destruct fuel as [|f]; [rewrite Ec in Hf; cbn in Hf; lia|].
-        cbn [dd_tags_f]. rewrite Ec. rewrite <- Ec. rewrite M1. destruct f; reflexivity.
-      + destruct (match_here_tag n v (tags_text (kv2 :: tags')) Hn Hv) as [_ M2].
+        destruct fuel as [|f]; [subst n; cbn in Hf; lia|].
+        assert (Es : exists c' r', append n (String ":" v) = String c' r') by (subst n; cbn [append]; eauto).
+        destruct Es as [c' [r' Es]]. cbn [dd_tags_f]. rewrite Es. rewrite <- Es. rewrite M1. destruct f; reflexivity.
+      + pose proof (match_here_tag n v (String "," (tags_text (kv2 :: tags'))) Hn Hv (or_intror (ex_intro _ _ eq_refl))) as M2.
         assert (E : tags_text ((n, v) :: kv2 :: tags') = append n (String ":" (append v (String "," (tags_text (kv2 :: tags')))))).
         { rewrite tags_text_cons. unfold tag_text. cbn [fst snd]. rewrite append_assoc. reflexivity. }
-        rewrite E in *. destruct fuel as [|f].
-        { unfold tag_text in Ec. cbn [fst snd] in Ec. destruct n; [discriminate Hn|]. cbn in Hf. lia. }
-        assert (Es : exists c' r', append n (String ":" (append v (String "," (tags_text (kv2 :: tags'))))) = String c' r').
-        { destruct n as [|c' n']; [discriminate Hn|]. cbn [append]. eauto. }
+        rewrite E in *. destruct fuel as [|f]; [subst n; cbn in Hf; lia|].
+        assert (Es : exists c' r', append n (String ":" (append v (String "," (tags_text (kv2 :: tags'))))) = String c' r') by (subst n; cbn [append]; eauto).
         destruct Es as [c' [r' Es]]. cbn [dd_tags_f]. rewrite Es. rewrite <- Es. rewrite M2. f_equal.
         apply IH; [exact Hwf|]. rewrite !length_append in Hf. cbn [String.length] in Hf. rewrite !length_append in Hf.
-        cbn [String.length] in Hf. lia.
+        cbn [String.length] in Hf. subst n. cbn [String.length] in Hf. lia.
   Qed.
 
   (* the regular expression inverts the rendering of well-formed tags *)
@@ -133,8 +177,13 @@ Section P.
   Proof. intros H. unfold dd_tags. apply dd_tags_f_tags; [exact H|apply Nat.le_refl]. Qed.
 End P.
 
+(* "é" = c3 a9 (U+00E9), "日" = e6 97 a5 (U+65E5): letters by the oracle *)
+Definition ex_letter_hi (r : Z) : bool := (r =? 233) || (r =? 26085).
+Definition s_e_acute : string := String (chr 195) (String (chr 169) EmptyString).
+Definition s_ri : string := String (chr 230) (String (chr 151) (String (chr 165) EmptyString)).
 Example dd_tags_hypotheses_met :
-  forallb (wf_tag (fun _ => false)) [("env", "prod"); ("k8s.pod/name", "web-1:8080"); ("a\b", "c/d")]%string = true /\
+  forallb (wf_tag ex_letter_hi) [("env", "prod"); ("k8s.pod/name", "web-1:8080"); ("a\b", "c/d");
+                                 (append s_e_acute "n0", append "caf" s_e_acute); (s_ri, s_ri)]%string = true /\
   tags_text [("env", "prod"); ("k8s.pod/name", "web-1:8080")]%string = "env:prod,k8s.pod/name:web-1:8080"%string.
 Proof. split; vm_compute; reflexivity. Qed.
 
